@@ -150,6 +150,15 @@ CHECKS["C12"] = dict(category="model_checking",
     design_ref="5 (C12), 4.6", technique="TLA+ byte-stream session machine (TLC exhaustive over piece classes) + replay into a real server + TLC record validation",
     note="memory clause by observation (RLIMIT_AS, strace of mmap sizes vs calibration); error texts compared only for conformance", engine="E")
 
+CHECKS["C13"] = dict(category="model_checking",
+    text="TLC model-checks two hub-sync clients (List, then CAS-Puts in path order) interleaved between requests, the success / failure / "
+         "second-run clauses evaluated when a run finishes; seeded histories of real `copia hub-sync` runs by two clients (local-path and "
+         "host:root targets, hostile names incl. a '.copia*' dot-file, empty and multi-buffer files), each followed by a second run; the "
+         "stale-listing window forced by parking client A's server at its first staging open (scheduling shim) while client B syncs; "
+         "TLC decides each record (Conform = the run semantics; Monitor = the property's clauses).",
+    design_ref="5 (C13), 4.6", technique="TLA+ client/hub interleaving model (TLC) + real hub-sync histories and shim-forced stale-listing races validated by TLC",
+    note="the hub's per-request atomicity is C03's subject; host targets through the ssh stand-in", engine="G")
+
 NOT_BUILT = "check not built yet in this round (planned in DESIGN.md section 5)"
 
 
